@@ -63,11 +63,18 @@ Definition int_of_double (k : ikind) (txt : bytes) : rep :=
       of_o (o_float orc false (to_decZ z)) (fun fz =>
         if fkey_eq f fz && in_range_k k z then RSome (XInt k z) else RNone) RNone) RNone) RNone.
 
+(* Stated exclusion (cost): an integral double whose integer needs more than max_bigint_bits (65536) binary
+   digits IS representable as a *big.Int in principle - a dozen bytes of text would denote an integer of
+   hundreds of megabytes - and the specification leaves the outcome open there (RUnspec) rather than
+   demanding that the decoder build it; likewise a string into *big.Rat whose written exponent exceeds
+   max_text_exponent (16384) in magnitude.  Below the limits the cells are specified as before. *)
 Definition bigint_of_double (txt : bytes) : rep :=
   of_o (o_text orc (bs "bf") txt) (fun t =>
+   of_o (o_int orc (bs "bfexp") txt) (fun e =>
+    if Z.of_N max_bigint_bits <? e then RUnspec else
     of_o (o_int orc (bs "bfint") txt) (fun z =>
       of_o (o_text orc (bs "bf") (to_decZ z)) (fun tz =>
-        if bytes_eqb t tz || (zero_text t && zero_text tz) then RSome (XBigInt z) else RNone) RNone) RNone) RNone.
+        if bytes_eqb t tz || (zero_text t && zero_text tz) then RSome (XBigInt z) else RNone) RNone) RNone) RNone) RNone.
 
 Definition empty_or_none (s : bytes) : rep := match s with [] => RUnspec | _ => RNone end.
 
@@ -188,7 +195,8 @@ Definition rep_scalar_core (t : gtype) (d : dval) : rep :=
       | DInt z => RSome (rat_of_int z)
       | DDouble txt =>
           of_o (o_float orc false txt) (fun _ => of_o (o_text orc (bs "ratf") txt) (fun t => RSome (XBigRat t)) RUnspec) RNone
-      | DStr s => of_o (o_text orc (bs "rat") s) (fun t => RSome (XBigRat t)) (empty_or_none s)
+      | DStr s => if exponent_too_large max_text_exponent s then RUnspec
+                  else of_o (o_text orc (bs "rat") s) (fun t => RSome (XBigRat t)) (empty_or_none s)
       | DBool _ | DNull => RUnspec
       | _ => RNone
       end
